@@ -1,5 +1,6 @@
 import CalmVerif.Props.C11
 import CalmVerif.Props.C11comp
+import CalmVerif.Props.C11tok
 open CalmVerif.Props.C11
 #print axioms actions_anchor_ok
 #print axioms actions_cover_grammar
@@ -31,3 +32,25 @@ open CalmVerif.Props.C11comp
 #print axioms parse_configs_reachable
 #check @parse_configs_reachable
 
+#print axioms CalmVerif.Props.C11tok.config_good
+#check @CalmVerif.Props.C11tok.config_good
+#print axioms CalmVerif.Props.C11tok.lexer_state_reachable
+#check @CalmVerif.Props.C11tok.lexer_state_reachable
+#print axioms CalmVerif.Props.C11tok.line_table_prefix_stable
+#check @CalmVerif.Props.C11tok.line_table_prefix_stable
+#print axioms CalmVerif.Props.C11tok.token_column_stable
+#check @CalmVerif.Props.C11tok.token_column_stable
+#print axioms CalmVerif.Props.C11tok.shifted_tokens_tokOK
+#check @CalmVerif.Props.C11tok.shifted_tokens_tokOK
+#print axioms CalmVerif.Props.C11tok.shifted_tokens_spellingOK
+#check @CalmVerif.Props.C11tok.shifted_tokens_spellingOK
+#print axioms CalmVerif.Props.C11tok.node_positions_ok
+#check @CalmVerif.Props.C11tok.node_positions_ok
+#print axioms CalmVerif.Props.C11tok.elision_runs_counted
+#check @CalmVerif.Props.C11tok.elision_runs_counted
+#print axioms CalmVerif.Proofs.LinesBridge.lineCol_bridge
+#check @CalmVerif.Proofs.LinesBridge.lineCol_bridge
+#print axioms CalmVerif.Proofs.LexerSpelling.term_spelling_from_lexer_tables
+#check @CalmVerif.Proofs.LexerSpelling.term_spelling_from_lexer_tables
+#print axioms CalmVerif.Proofs.ParserDrive.pinv_rewind
+#check @CalmVerif.Proofs.ParserDrive.pinv_rewind
